@@ -216,6 +216,29 @@ def run_check(prop_id: str, tier: str, seed: int, replay: dict | None = None) ->
         if not any("does not build" in p or "does not compile" in p and "generated" in p for p in P):
             D, F, coq_errors = evaluate(spec, cases, obs, workdir, gen_q)
         t_coq = time.time() - tc
+        # 4b. model-tie modules this property's theorems rest on (TIES): the same correspondence machinery on the
+        #     inputs of the tie module; any disagreement there breaks the tie of this property's model
+        tie_info: dict[str, dict] = {}
+        tie_breaks: list[dict] = []
+        if replay is None and not any("does not build" in p for p in P):
+            for tid in getattr(spec, "TIES", []):
+                tt = time.time()
+                tspec = importlib.import_module(f"a816v.props.{tid.lower()}")
+                tctx = {"rng": random.Random(seed), "tier": tier, "workdir": workdir, "seed": seed}
+                tcases = (tspec.corpus_cases() if hasattr(tspec, "corpus_cases") else []) + tspec.cases(tctx)
+                tobs = observe_all(tspec, tcases)
+                tD, tF, terrs = evaluate(tspec, tcases, tobs, workdir, gen_q, name=f"tie_{tid.lower()}")
+                tdrv = [i for i, o in enumerate(tobs) if isinstance(o, dict) and "driver_error" in o]
+                tie_info[tid] = {"cases": len(tcases), "disagreements": len(tD), "oracle_failures": len(tF),
+                                 "seconds": round(time.time() - tt, 1), "rule": getattr(tspec, "RULE", "")[:400]}
+                bad = (tF or tD or tdrv)
+                if bad or terrs:
+                    i = bad[0] if bad else None
+                    tie_breaks.append({"tie": tid, "spec_failure": bool(tF), "disagreements": len(tD), "oracle_failures": len(tF),
+                                       "case": tcases[i] if i is not None else None,
+                                       "implementation": tobs[i] if i is not None else None,
+                                       "model": model_view(tspec, tcases[i], tobs[i], workdir, gen_q) if i is not None else "",
+                                       "coq_errors": terrs[:2]})
         if proof_future is not None:
             fails, proof_info = proof_future.result()
             P += fails
@@ -251,7 +274,16 @@ def run_check(prop_id: str, tier: str, seed: int, replay: dict | None = None) ->
             })
             print(f"VIOLATION property={spec.ID} replay={replay_path}")
             exit_code = 1
-        elif P or D_new or coq_errors or drv:
+        elif any(b["spec_failure"] for b in tie_breaks):
+            b = [b for b in tie_breaks if b["spec_failure"]][0]
+            replay_path = write_replay(spec, "spec-failure", {
+                "case": b["case"], "implementation": b["implementation"], "model": b["model"], "tie": b["tie"],
+                "what": f"the spec oracle of the model-tie module {b['tie']} (a part of the model this property's theorems "
+                        "rest on) is false on the implementation's output for this input",
+                "replay_with": f"bin/check {b['tie']} --tier quick"})
+            print(f"VIOLATION property={spec.ID} replay={replay_path}")
+            exit_code = 1
+        elif P or D_new or coq_errors or drv or tie_breaks:
             # proof or correspondence broke without a spec failure in the sample: targeted search
             found = None
             if hasattr(spec, "search"):
@@ -268,14 +300,25 @@ def run_check(prop_id: str, tier: str, seed: int, replay: dict | None = None) ->
                 print(f"VIOLATION property={spec.ID} replay={replay_path}")
             else:
                 first = D_new[0] if D_new else (drv[0] if drv else None)
-                replay_path = write_replay(spec, "proof-broken" if P else "correspondence", {
+                if first is None and not P and tie_breaks:
+                    b = tie_breaks[0]
+                    replay_path = write_replay(spec, "correspondence", {
+                        "no_longer_checks": [f"correspondence of the model-tie module {b['tie']}: implementation and model differ "
+                                             f"({b['disagreements']} cases)"],
+                        "tie": b["tie"], "case": b["case"], "implementation": b["implementation"], "model": b["model"],
+                        "coq_errors": b["coq_errors"], "replay_with": f"bin/check {b['tie']} --tier quick"})
+                    print(f"VIOLATION property={spec.ID} replay={replay_path} no-failing-input-found")
+                    first = -1
+                if first != -1:
+                  replay_path = write_replay(spec, "proof-broken" if P else "correspondence", {
                     "no_longer_checks": P[:5] or [f"correspondence {spec.ID}: implementation and model differ"
                                                    if D_new else "case evaluation failed"],
                     "case": cases[first] if first is not None else None,
                     "implementation": obs[first] if first is not None else None,
                     "model": model_view(spec, cases[first], obs[first], workdir, gen_q) if first is not None else "",
-                    "coq_errors": coq_errors[:2], "disagreements": len(D_new)})
-                print(f"VIOLATION property={spec.ID} replay={replay_path} no-failing-input-found")
+                    "coq_errors": coq_errors[:2], "disagreements": len(D_new),
+                    "tie_breaks": [{k: v for k, v in b.items() if k in ("tie", "disagreements", "oracle_failures")} for b in tie_breaks]})
+                  print(f"VIOLATION property={spec.ID} replay={replay_path} no-failing-input-found")
             exit_code = 1
         for k, n in known_hit.items():
             print(f"KNOWN-FINDING: property={spec.ID} {open_keys[k]['what']} ({n} cases)")
@@ -308,7 +351,8 @@ def run_check(prop_id: str, tier: str, seed: int, replay: dict | None = None) ->
                 "rule": getattr(spec, "RULE", ""),
                 "samples": samples[:8],
                 "input_distribution": dist,
-                "correspondence_disagreements": len(D),
+                "model_ties": tie_info,
+                "correspondence_disagreements": len(D) + sum(t["disagreements"] for t in tie_info.values()),
                 "oracle_failures": len(F),
                 "known_findings_hit": known_hit,
                 "proof_failures": P[:5],
@@ -322,6 +366,8 @@ def run_check(prop_id: str, tier: str, seed: int, replay: dict | None = None) ->
         if replay is None:
             C.EVIDENCE.mkdir(exist_ok=True)
             (C.EVIDENCE / f"{spec.ID}.json").write_text(json.dumps(ev, indent=1, default=str))
+        for tid, t in tie_info.items():
+            C.log(f"[{spec.ID}] tie {tid}: cases={t['cases']} D={t['disagreements']} F={t['oracle_failures']} {t['seconds']}s")
         C.log(f"[{spec.ID}] tier={tier} cases={len(cases)} D={len(D)} F={len(F)} P={len(P)} "
               f"impl={t_impl:.1f}s coq={t_coq:.1f}s total={time.time() - t0:.1f}s exit={exit_code}")
         if exit_code and (P or coq_errors):
@@ -362,6 +408,13 @@ def main(argv=None) -> int:
     seed = int(os.environ.get("VERIF_SEED", "816"))
     if args.replay:
         rp = json.loads(Path(args.replay).read_text())
+        if rp.get("tie") and rp.get("case") is not None:
+            # the failing input belongs to a model-tie module: replay it there (same verdict protocol, reported under
+            # the property that owns the replay file)
+            rc = run_check(rp["tie"], args.tier, seed, replay={"case": rp["case"], "property": rp["tie"]})
+            if rc:
+                print(f"VIOLATION property={rp['property']} replay={args.replay}")
+            return rc
         return run_check(rp["property"], args.tier, seed, replay=rp)
     if not args.property:
         ap.error("property id required")
